@@ -40,6 +40,7 @@ pub struct Args {
     pub out: String,
     pub max_len: usize,
     pub replay: Option<String>,
+    pub only_rule: Option<String>,
 }
 
 fn arg(args: &[String], name: &str) -> Option<String> {
@@ -65,6 +66,7 @@ pub fn main(table: &[GrammarEntry]) {
         out: arg(&argv, "--out").expect("--out"),
         max_len: arg(&argv, "--max-len").map(|s| s.parse().unwrap()).unwrap_or(64),
         replay: arg(&argv, "--replay"),
+        only_rule: arg(&argv, "--only-rule"),
     };
     let models: Vec<serde_json::Value> = serde_json::from_str(&std::fs::read_to_string(&args.models).expect("models.json")).unwrap();
     let mut by_id: HashMap<String, ModelEntry> = HashMap::new();
@@ -308,6 +310,9 @@ fn run(table: &'static [GrammarEntry], args: &Args, by_id: &HashMap<String, Mode
         _ => {
             for (ti, g) in &ctxs {
                 for e in table[*ti].rules {
+                    if args.only_rule.as_deref().map_or(false, |r| r != e.rule) {
+                        continue;
+                    }
                     run_rule(&cr, g, e, &mut partial);
                 }
             }
